@@ -51,7 +51,7 @@ struct LtWorld : World {
         int Uc = (int)cfg.get("U");
         if (mtm) op.k = wpick(r, {{40, LT_PUT}, {20, LT_GET}, {8, LT_GETMULTI}, {20, LT_REMOVE}, {4, LT_CLEAR}, {8, LT_LOCKEDWALK}});
         else op.k = wpick(r, {{40, LT_PUT}, {12, LT_GET}, {8, LT_GETMULTI}, {10, LT_REMOVE}, {8, LT_WALK}, {6, LT_WALKREMOVE}, {4, LT_SORT}, {4, LT_SIZE}, {1, LT_CLEAR},
-                              {(prop == "C15" || prop == "C14") ? 1 : 5, LT_SAVELOAD}, {c14 ? 3 : 0, LT_DEBUG}});
+                              {(prop == "C15" || prop == "C14") ? 1 : 5, LT_SAVELOAD}, {c14 ? 3 : 0, LT_DEBUG}, {c14 ? 6 : 0, LT_LOCKEDWALK}});
         op.a = (int)r.below((uint32_t)Uc);
         switch (op.k) {
         case LT_PUT: {
@@ -108,7 +108,7 @@ struct LtWorld : World {
     void sut_destroy(Ctx &) override { if (t) { InSut s; t->free(t); } t = nullptr; }
     void sut_abandon() override { t = nullptr; }
     void *sut_mutex() override { return t ? t->qmutex : nullptr; }
-    void sut_force_unlock() override { InSut s; t->unlock(t); }
+    void sut_force_unlock() override { InSutLock s; t->unlock(t); }
     void sut_probe(Ctx &) override { InSut s; t->get(t, "probe-key", nullptr, false); }
 
     Bytes entries_of(qlisttbl_t *tb) {
@@ -171,7 +171,7 @@ struct LtWorld : World {
             if (op.k == LT_LOCKEDWALK) filtered = false;
             CallerBuf kb(kz);
             const char *kp = filtered ? (const char *)kb.p : nullptr;
-            if (op.k == LT_LOCKEDWALK) { InSut s; t->lock(t); }
+            if (op.k == LT_LOCKEDWALK) { InSutLock s; t->lock(t); }
             qlisttbl_obj_t o; memset(&o, 0, sizeof o);
             Bytes out; size_t cnt = 0, guard = t->num * 2 + 8; int removed = 0; bool failed = false;
             for (;;) {
@@ -186,9 +186,9 @@ struct LtWorld : World {
                     if (ok) { removed++; x.st.add(first && last ? "probe.walkremove_only" : first ? "probe.walkremove_first" : last ? "probe.walkremove_last" : "probe.walkremove_middle"); }
                     else out += "!removeobj-failed";
                 }
-                if (++cnt > guard) { if (op.k == LT_LOCKEDWALK) { InSut s; t->unlock(t); } x.fail("walk-mismatch", "result", "walk does not end"); }
+                if (++cnt > guard) { if (op.k == LT_LOCKEDWALK) { InSutLock s; t->unlock(t); } x.fail("walk-mismatch", "result", "walk does not end"); }
             }
-            if (op.k == LT_LOCKEDWALK) { InSut s; t->unlock(t); }
+            if (op.k == LT_LOCKEDWALK) { InSutLock s; t->unlock(t); }
             if (op.k == LT_WALKREMOVE) out += "|removed=" + num(removed);
             return failed ? R_fail(out) : R_ok(out + "$");
         }
